@@ -482,6 +482,11 @@ func genC16(r *Rand, tier, profile string) *Case {
 		case x < 8: // password of another row
 			a, b := tab[r.Intn(len(tab))], tab[r.Intn(len(tab))]
 			u, p = a.u, b.p
+		case x < 9 && r.Bool(0.4): // the same characters, split differently between the two fields
+			rw := tab[r.Intn(len(tab))]
+			all := rw.u + rw.p
+			k := r.Intn(len(all) + 1)
+			u, p = all[:k], all[k:]
 		case x < 9: // unknown user
 			// names whose digests fall before, between and after the configured ones, mostly with a
 			// password that is valid for somebody else
@@ -833,7 +838,7 @@ func genHostileBytes(r *Rand) []byte {
 	var base []byte
 	switch r.Intn(12) {
 	case 0:
-		base = encConnect(connectOpts{ClientID: "h", User: "u", Pass: "p", HasUser: true, HasPass: true, Keepalive: 30, WillTopic: "w/h", WillPayload: "x"})
+		base = encConnect(connectOpts{ClientID: "h", User: "u", Pass: "p", HasUser: true, HasPass: true, Keepalive: 30, WillTopic: r.Pick([]string{"w/h", "wit/h"}), WillPayload: "x", WillQos: r.Intn(3), WillRetain: r.Bool(0.3)})
 	case 1, 2:
 		base = encPublish("t/h", []byte("hostile"), r.Intn(4), r.Bool(0.3), r.Bool(0.3), r.Intn(3))
 	case 3:
@@ -899,7 +904,6 @@ func genHostileBytes(r *Rand) []byte {
 	return b
 }
 
-
 // genHostileSequence: well-formed packets in an order or with identifiers the protocol forbids
 // (the state machine rather than the decoder is the target).
 func genHostileSequence(r *Rand) [][]byte {
@@ -958,7 +962,11 @@ func genC18(r *Rand, tier, profile string) *Case {
 		cid := 10 + i
 		if r.Bool(0.6) {
 			// a proper CONNECT first: the hostile bytes hit an established session
-			ts = append(ts, tstep{t, Step{K: "connect", C: cid, N: 0, S: fmt.Sprintf("h%d", i), U: "u", T: "p", I: int64(r.PickInt([]int{2, 30}))}})
+			hc := Step{K: "connect", C: cid, N: 0, S: fmt.Sprintf("h%d", i), U: "u", T: "p", I: int64(r.PickInt([]int{2, 30}))}
+			if r.Bool(0.5) { // with a will of any QoS: it is published when the hostile session is thrown out
+				hc.L, hc.Q, hc.F = []string{r.Pick([]string{"wit/hw", "w/hw"}), fmt.Sprintf("hwill%d", i)}, r.Intn(3), r.Bool(0.3)
+			}
+			ts = append(ts, tstep{t, hc})
 			t += 10
 			if r.Bool(0.4) {
 				ts = append(ts, tstep{t, Step{K: "sub", C: cid, L: []string{"wit/#"}, QL: []int{r.Intn(3)}, I: 1}})
@@ -1069,23 +1077,23 @@ func runC18(t *testing.T, c *Case) *Outcome {
 
 func init() {
 	register(&Check{ID: "C12", Level: "exploration", Build: "maporder", Gen: genC12, Run: runC12, QuickS: 30, ThoroughS: 480,
-		Rule:   "a case = 1-3 nodes, a chain of 2-4 connections sharing one client id on the same or different nodes (each CONNECT issued once the accepting node holds the earlier session's record), each session subscribing and later pinging / subscribing / disconnecting / losing its link at PRNG times, gossip loss/dup/delay; settle; publishes towards every session of the chain; distinct by hash of the scenario",
-		Real:   e1Real, Stub: e1Stub,
+		Rule: "a case = 1-3 nodes, a chain of 2-4 connections sharing one client id on the same or different nodes (each CONNECT issued once the accepting node holds the earlier session's record), each session subscribing and later pinging / subscribing / disconnecting / losing its link at PRNG times, gossip loss/dup/delay; settle; publishes towards every session of the chain; distinct by hash of the scenario",
+		Real: e1Real, Stub: e1Stub,
 		Assume: []string{"a displaced session's PINGREQ is judged only if it was sent after its hosting node had merged the successor's record; a node holding both records as live at that moment is reported as takeover-ambiguous", "clocks are synchronised in this profile"}})
 	register(&Check{ID: "C13", Level: "exploration", Build: "maporder", Gen: genC13, Run: runC13, QuickS: 30, ThoroughS: 480,
-		Rule:   "a case = 1-3 nodes, a session with a will (topic of 1-3 levels, QoS 0-2, retain or not), 1-4 watchers with exact/wildcard/non-matching filters (one possibly in another mount point) placed over the nodes, a settle, then one termination cause (DISCONNECT, cut, close, silence, second CONNECT, hosting-node stop); judged per surviving watcher; non-trivial when >=1 watcher judged; distinct by hash of the scenario",
-		Real:   e1Real, Stub: e1Stub,
+		Rule: "a case = 1-3 nodes, a session with a will (topic of 1-3 levels, QoS 0-2, retain or not), 1-4 watchers with exact/wildcard/non-matching filters (one possibly in another mount point) placed over the nodes, a settle, then one termination cause (DISCONNECT, cut, close, silence, second CONNECT, hosting-node stop); judged per surviving watcher; non-trivial when >=1 watcher judged; distinct by hash of the scenario",
+		Real: e1Real, Stub: e1Stub,
 		Assume: []string{"the dying session's record has been replicated (settle) before it dies", "for the node-failure cause only watchers on surviving nodes are judged"}})
 	register(&Check{ID: "C16", Level: "exploration", Build: "maporder", Gen: genC16, Run: runC16, QuickS: 30, ThoroughS: 400,
-		Rule:   "a case = a credential table of 1-6 rows (2- and 3-field lines, unique user names) served by the real file handler (3 of 4 cases) or the real static handler, and 1-8 candidates drawn from present, wrong-password, swapped, other-row-password, unknown and empty credentials, each carrying a will and trying to subscribe; links of some candidates are cut later; non-trivial when >=2 candidates judged; distinct by hash of (table, candidates)",
-		Real:   append([]string{"wasp/auth fileHandler / staticHandler reading a real file"}, e1Real...), Stub: e1Stub,
+		Rule: "a case = a credential table of 1-6 rows (2- and 3-field lines, unique user names) served by the real file handler (3 of 4 cases) or the real static handler, and 1-8 candidates drawn from present, wrong-password, swapped, other-row-password, unknown and empty credentials, each carrying a will and trying to subscribe; links of some candidates are cut later; non-trivial when >=2 candidates judged; distinct by hash of (table, candidates)",
+		Real: append([]string{"wasp/auth fileHandler / staticHandler reading a real file"}, e1Real...), Stub: e1Stub,
 		Assume: []string{"the password column of the file holds the SHA-256 hex of the password (what fileHandler compares against)", "user names are unique within a table"}})
 	register(&Check{ID: "C17", Level: "exploration", Build: "maporder", Gen: genC17, Run: runC17, QuickS: 30, ThoroughS: 480,
-		Rule:   "a case = 2-3 mount points with 1-3 clients each on 1-2 nodes, client ids shared across mount points on purpose, filters including bare '#', '+', '+/x', publishes, retained publishes and wills in every tenant, link cuts, late '#' subscribers per tenant; every message a client receives is traced to its publisher's mount point and topic; non-trivial when >=1 received message judged; distinct by hash of the scenario",
-		Real:   append([]string{"wasp/auth fileHandler over a generated 4-line file (mount points per user)"}, e1Real...), Stub: e1Stub,
+		Rule: "a case = 2-3 mount points with 1-3 clients each on 1-2 nodes, client ids shared across mount points on purpose, filters including bare '#', '+', '+/x', publishes, retained publishes and wills in every tenant, link cuts, late '#' subscribers per tenant; every message a client receives is traced to its publisher's mount point and topic; non-trivial when >=1 received message judged; distinct by hash of the scenario",
+		Real: append([]string{"wasp/auth fileHandler over a generated 4-line file (mount points per user)"}, e1Real...), Stub: e1Stub,
 		Assume: []string{"client ids are unique within a mount point (sharing inside one tenant is C12's takeover)"}})
 	register(&Check{ID: "C18", Level: "exploration", Build: "maporder", Gen: genC18, Run: runC18, QuickS: 40, ThoroughS: 480, Isolated: true,
-		Rule:   "a case = one node with a witness and a bystander, 1-4 hostile connections (after a proper CONNECT or from the first byte) each sending 1-4 byte strings obtained from valid packets of every type by truncation, bit flips in type/flags, corrupted remaining length (continuation bytes, lengths beyond the data up to 1 MiB), corrupted length prefixes, QoS 3, empty topic lists, identifier 0, or random bytes, whole or fragmented; each case runs in its own process; after every hostile stream the witness completes a QoS 1 round trip within 5 s; non-trivial when >=1 round trip judged; distinct by hash of the scenario",
-		Real:   e1Real, Stub: e1Stub,
+		Rule: "a case = one node with a witness and a bystander, 1-4 hostile connections (after a proper CONNECT or from the first byte) each sending 1-4 byte strings obtained from valid packets of every type by truncation, bit flips in type/flags, corrupted remaining length (continuation bytes, lengths beyond the data up to 1 MiB), corrupted length prefixes, QoS 3, empty topic lists, identifier 0, or random bytes, whole or fragmented; each case runs in its own process; after every hostile stream the witness completes a QoS 1 round trip within 5 s; non-trivial when >=1 round trip judged; distinct by hash of the scenario",
+		Real: e1Real, Stub: e1Stub,
 		Assume: []string{"declared lengths are capped at 1 MiB (allocation failure cannot be injected in Go)", "a panic in any broker goroutine kills the worker process and is reported with the scenario that was running"}})
 }
